@@ -206,3 +206,32 @@ def lexeme_cases(n, rng=None, per=None):
             pairs = rng.sample(pairs, per) + [('\\41 ', ' x'), ('\\E', ' x'), ('\\x', ' x'), (' ', 'x'), ('/**/', 'x')]
         for u, t in pairs:
             yield op + u * n + t
+
+
+# -- numbers float arithmetic cannot hold, and URLs urllib refuses ------------------------------------------------
+BIG = '1' + '0' * 400
+EXTREME_NUMS = [BIG, '-' + BIG, BIG + '.5', '9' * 310, '0.' + '0' * 400 + '1', '.' + '9' * 400, BIG + '%', '-' + BIG + '%',
+                BIG + '.5%', BIG + 'px', BIG + '.5em', BIG + 'deg', BIG + 'n', '1e400', '1E-400', '+' + BIG, '0' * 400, '00000000000000000000.5']
+NUMBER_SLOTS = ['a{color:rgb(%s,2,3)}', 'a{color:rgb(1,2,%s)}', 'a{color:rgb(%s,2%%,3%%)}', 'a{color:rgba(1,2,3,%s)}', 'a{color:rgba(%s,2,3,.5)}',
+                'a{color:hsl(%s,50%%,50%%)}', 'a{color:hsl(0,%s,50%%)}', 'a{color:hsl(0,50%%,%s)}', 'a{color:hsla(%s,50%%,50%%,1)}',
+                'a{color:hsla(0,50%%,50%%,%s)}', 'a{background:hsl(0,%s,%s)}', 'a{width:%s}', 'a{opacity:%s}', 'a{z-index:%s}',
+                'a{line-height:%s}', 'a{font:%s/%s serif}', 'a{width:calc(%s * 2)}', 'a{width:calc(1px + %s)}', 'a:nth-child(%s){b:c}',
+                'a:nth-child(2n+%s){b:c}', '@media (min-width:%s){a{b:c}}', '@media (aspect-ratio:%s/%s){a{b:c}}',
+                '@page{margin:%s}', '@page{@top-left{width:%s}}', '@variables{a:%s}a{b:var(a)}', 'a{b:f(%s)}', 'a{b:%s %s %s}',
+                'a{unicode-range:U+%s}', '@font-face{font-weight:%s}', 'a{b:rect(%s,%s,%s,%s)}', 'a{font-size:%s}', 'a{b:-%s}']
+BAD_URLS = ['http://[x', 'http://[::1', '//[', 'http://[x]/a', 'http://a:b/', 'http://a:99999999999/', 'http://%zz/', 'http://a b/',
+            'file:///', 'data:,x', '\\\\x\\y', 'http://', '://', 'http:///a', 'a\x00b', 'http://\ud800/', '[', ']', 'http://a/[b', 'ht!tp://a',
+            'http://a/' + 'b' * 5000, 'http://' + 'a.' * 2000 + 'b/']
+URL_SLOTS = ['@import "%s";', '@import url(%s);', "@import url('%s') print;", '@namespace p "%s";', 'a{background:url(%s)}',
+             'a{b:url("%s") url(%s)}', '@font-face{src:url(%s)}', '@import "%s";@import "%s";a{b:c}']
+
+
+def extreme_cases():
+    for slot in NUMBER_SLOTS:
+        k = slot.count('%s')
+        for num in EXTREME_NUMS:
+            yield slot % ((num,) * k)
+    for slot in URL_SLOTS:
+        k = slot.count('%s')
+        for u in BAD_URLS:
+            yield slot % ((u,) * k)
